@@ -23,13 +23,20 @@ HARNESSES = [
          malloc_fail=True, flags=["--memory-leak-check", "--unsigned-overflow-check"],
          unwind=2, timeout=600,
          cases=[dict(id="all", tier="quick")]),
-    dict(name="new_sparse", file="new_sparse.c", label="bounded(sparse map entries <= 2)", defines=CT,
-         fp={"get_filename": "env_get_filename"}, unwind=513,
-         flags=["--memory-leak-check"], timeout=1500, weight=9,
-         cases=[dict(id="ent1", defines={"MAXENT": 1}, tier="quick",
-                     unwindset=["decode.0:1025", "read_gnu_new_sparse.0:4"]),
-                dict(id="ent2", defines={"MAXENT": 2}, tier="thorough",
-                     unwindset=["decode.0:1025", "read_gnu_new_sparse.0:6"])]),
+    dict(name="new_sparse", file="new_sparse.c", label="proved", defines=CT,
+         loops=["decode", "read_gnu_new_sparse"], fp={"get_filename": "env_get_filename"},
+         instrument_flags=["--replace-calls", "decode:stub_decode"],
+         native=False, timeout=900, weight=5,
+         cases=[dict(id="unbounded", tier="quick")]),
+    dict(name="decode_safety", file="decode_safety.c", label="proved", defines=CT,
+         loops=["decode"], timeout=600,
+         cases=[dict(id="max1024", tier="quick")]),
+    dict(name="decode_spec", file="decode_spec.c", label="bounded(len<=8)", defines=CT,
+         timeout=900,
+         cases=[dict(id="len4", defines={"LEN": 4, "__NO_CTYPE": None}, unwind=5, tier="quick"),
+                dict(id="len8", defines={"LEN": 8, "__NO_CTYPE": None}, unwind=9, tier="quick"),
+                dict(id="len12", defines={"LEN": 12, "__NO_CTYPE": None}, unwind=13, tier="thorough",
+                     label="bounded(len<=12)")]),
     dict(name="read_header", file="read_header.c", label="bounded(header records per call <= 3)",
          defines=CT, unwind=513, malloc_fail=True, timeout=900, weight=7,
          nochecks=["--conversion-check"],
